@@ -64,7 +64,7 @@ def pipeline(rep, cov, tier, seed, rng, text, msgs, label, probe_key=None):
     os.makedirs(replay_dir, exist_ok=True)
     prog_path = os.path.join(replay_dir, f"C07_programs_{seed}_{tier}_{label}.wowm")
     open(prog_path, "w").write(text)
-    with genrun.GenScratch() as g:
+    with genrun.GenScratch(target=os.path.join(CACHE, "gen-target-c07")) as g:
         S = genrun.SCRATCH
         wfile = os.path.join(S, "wow_message_parser/wowm/world/zz_verif_c07.wowm")
         open(wfile, "w").write(text)
